@@ -319,6 +319,11 @@ def throw_catalogue():
                    rule("F", sib_first()), rule("G", sib_second())])
     g("siblings2", [rule("S", choice(act(label("p", recover(seq(ref("F"), ref("G")), ["ea"], act(lit("y"), rec("outer")))), rec("s1")), act(star(any_()), rec("s2")))),
                     rule("F", sib_first()), rule("G", sib_second())])
+    # a recursive list: the throw is reachable from Blk only through Itm (Itm -> Blk -> Itm); an outer handler in
+    # the start rule and an inner one guarding the block
+    g("nestedlist", [rule("S", act(label("x", recover(ref("Itm"), ["l1"], act(star(any_()), rec("gaveup")))), rec("s"))),
+                     rule("Itm", choice(cls(ranges=[("a", "b")]), recover(ref("Blk"), ["l1"], act(lit(""), rec("hole"))), throw("l1"))),
+                     rule("Blk", act(seq(lit("["), label("i", seq(ref("Itm"), star(seq(lit(","), ref("Itm"))))), lit("]")), rec("blk")))])
     # a choice written inline in a recovery expression, evaluated at throw sites inside two different rules
     g("rcvchoice", [rule("S", act(label("x", recover(choice(ref("Add"), ref("Del")), ["l1"], choice(act(lit("a"), rec("ra")), act(lit("d"), rec("rd"))))), rec("s"))),
                     rule("Add", seq(and_(lit("a")), throw("l1"))), rule("Del", seq(and_(lit("d")), throw("l1")))])
@@ -396,6 +401,11 @@ def context_catalogue():
     g("optseq", [rule("S", act(seq(label("i", plus(cls(ranges=[("0", "1")]))), label("f", opt(act(seq(lit("."), plus(cls(ranges=[("0", "1")]))), b_rec("frac")))), label("r", star(any_()))), b_rec("s")))])
     g("optseq2", [rule("S", act(seq(label("f", opt(seq(lit("a"), lit("b")))), label("g", opt(ref("P"))), label("r", star(any_()))), b_rec("s"))), rule("P", seq(lit("a"), lit("c")))])
     g("predctx", [rule("S", act(seq(label("a", ref("B")), lit("c"), andcode(p_const(True, "pt")), state(s_inc("k")), opt(lit("d"))), b_rec("s"))), rule("B", act(lit("ab"), b_rec("B")))])
+    # labels bound directly inside an inline repetition: every iteration binds them afresh (an optional that matched
+    # in one iteration and not in the next is nil in the next)
+    g("iterlbl", [rule("S", act(label("its", star(act(seq(label("o", opt(lit("a"))), label("ch", cls(chars="bc"))), b_rec("it")))), b_rec("s")))])
+    g("iterlbl2", [rule("S", act(seq(label("its", plus(act(seq(label("o", opt(ref("N"))), lit(","), label("q", opt(lit("b")))), b_rec("it")))), label("r", opt(any_()))), b_rec("s"))),
+                   rule("N", act(cls(ranges=[("0", "1")]), b_text()))])
     return out
 
 
@@ -693,6 +703,8 @@ def random_grammars(seed, count, features=("pred", "label", "act"), depth=3):
             if kind == "not" and "pred" in features:
                 return not_(sub(new()))
             if kind == "label" and "label" in features:
+                if scope == "NOLABEL":
+                    return sub()  # top scope of a helper rule
                 if pool:
                     if scope is None:
                         return sub()
@@ -726,7 +738,7 @@ def random_grammars(seed, count, features=("pred", "label", "act"), depth=3):
         defs = {}
         for i, nm in enumerate(reversed(lower)):
             avail = [x for x in defs]
-            e = gen(depth - 1, avail, None)  # (no label in the top scope of a helper rule: inlining would merge it into the caller's scope, finding F13)
+            e = gen(depth - 1, avail, "NOLABEL")  # (no label in the top scope of a helper rule: inlining would merge it into the caller's scope, finding F13)
             defs[nm] = e
             null[nm] = _nullable(e, null)
         body = gen(depth, list(defs), set() if pool else None)
@@ -852,8 +864,11 @@ def random_class_merges(seed, count):
         ic = rnd.random() < 0.3
         alts, rules = [], []
         for k in range(rnd.randint(2, 4)):
-            if rnd.random() < 0.3:
+            r0 = rnd.random()
+            if r0 < 0.3:
                 a = lit(rnd.choice(letters), i=ic if rnd.random() < 0.8 else not ic)
+            elif r0 < 0.38:
+                a = lit("".join(rnd.sample(letters, 2)), i=ic)  # a literal of two characters must not be merged into a class
             else:
                 a = one_class()
             if rnd.random() < 0.4:
@@ -861,6 +876,8 @@ def random_class_merges(seed, count):
                 rules.append(rule(nm, a))
                 a = ref(nm)
             alts.append(a)
+        if rnd.random() < 0.2:
+            alts.append(lit(""))  # the always-matching empty alternative ("-" / "+" / "")
         # (no repetition: one merged class decides one byte, so the path count stays small at any input bound)
         items = [label("x", choice(*alts))]
         if rules and rnd.random() < 0.6:
